@@ -126,29 +126,29 @@ func newC07(cfg c07Cfg) (*c07Run, *fw.Violation) {
 		return x, x.viol("harness", "no connection")
 	}
 	x.srv = h.Conns[0]
-	x.l.open(1)
+	// stream ids are whatever the client chose (any fresh odd id is legal): read them off the wire
+	p1 := uint32(1)
+	if len(x.srv.Order) > 0 {
+		p1 = x.srv.Order[0]
+	}
+	x.l.open(p1)
 	if r, d := x.account(); r != "" {
 		return x, x.viol(r, d)
 	}
-	x.l.stream[1] += 70000
-	h.Send(0, peer.WindowUpdate(1, 70000))
+	x.l.stream[p1] += 70000
+	h.Send(0, peer.WindowUpdate(p1, 70000))
 	if r, d := x.account(); r != "" {
 		return x, x.viol(r, d)
 	}
-	if x.l.sent[1] != 65530 || x.l.conn != 5 {
-		return x, x.viol("prelude-incomplete", fmt.Sprintf("prelude upload: %d of 65530 bytes arrived, connection window %d", x.l.sent[1], x.l.conn))
+	if x.l.sent[p1] != 65530 || x.l.conn != 5 {
+		return x, x.viol("prelude-incomplete", fmt.Sprintf("prelude upload: %d of 65530 bytes arrived, connection window %d", x.l.sent[p1], x.l.conn))
 	}
-	h.Send(0, x.srv.RespFrames(1, []ref.Field{{Name: ":status", Value: "200"}}, nil, nil, nil, -1)...)
+	h.Send(0, x.srv.RespFrames(p1, []ref.Field{{Name: ":status", Value: "200"}}, nil, nil, nil, -1)...)
 	if !pre.Done || pre.Err != nil {
 		return x, x.viol("prelude-incomplete", fmt.Sprintf("prelude request did not complete: done=%v err=%v", pre.Done, pre.Err))
 	}
-	id := uint32(3)
 	for i, size := range cfg.Sizes {
-		x.calls = append(x.calls, h.Go(c07Spec(i, size, cfg.Kind[i])))
-		x.l.open(id)
-		x.ids = append(x.ids, id)
-		x.sizes, x.kinds = append(x.sizes, size), append(x.kinds, cfg.Kind[i])
-		id += 2
+		x.start(c07Spec(i, size, cfg.Kind[i]), size, cfg.Kind[i])
 	}
 	if r, d := x.account(); r != "" {
 		return x, x.viol(r, d)
@@ -157,6 +157,19 @@ func newC07(cfg c07Cfg) (*c07Run, *fw.Violation) {
 		return x, x.viol("stuck-with-open-windows", s)
 	}
 	return x, nil
+}
+
+// start issues one more upload and learns its stream id from the HEADERS the server received.
+func (x *c07Run) start(spec harness.ReqSpec, size, kind int) {
+	n := len(x.srv.Order)
+	x.calls = append(x.calls, x.h.Go(spec))
+	id := uint32(2*n + 1)
+	if len(x.srv.Order) > n {
+		id = x.srv.Order[n]
+	}
+	x.l.open(id)
+	x.ids = append(x.ids, id)
+	x.sizes, x.kinds = append(x.sizes, size), append(x.kinds, kind)
 }
 
 func (x *c07Run) windows() []int64 {
@@ -224,16 +237,8 @@ func (x *c07Run) apply(ev string) *fw.Violation {
 		x.maxFrame = a
 	case strings.HasPrefix(ev, "late"):
 		fmt.Sscanf(ev, "late %d %d", &a, &b)
-		i := len(x.ids)
-		id := uint32(3)
-		if i > 0 {
-			id = x.ids[i-1] + 2
-		}
 		x.late++
-		x.calls = append(x.calls, h.Go(c07Spec(i, a, b)))
-		x.l.open(id)
-		x.ids = append(x.ids, id)
-		x.sizes, x.kinds = append(x.sizes, a), append(x.kinds, b)
+		x.start(c07Spec(len(x.ids), a, b), a, b)
 	case ev == "othersettings":
 		h.Send(0, peer.Settings(peer.Setting{ID: peer.SHeaderTableSize, Val: 4096}, peer.Setting{ID: peer.SMaxConcurrentStreams, Val: 50}))
 	}
